@@ -851,8 +851,19 @@ def free_running(ctx, inplace, quick):
                     if rc == 0 and dg is not None and len(dg.get("S.read_assignments.tsv.gz", [])) <= 3 and "without index files" in rname: key = KEY_REFIDX
                     # the loud variant of the same window: pyfaidx opened the half-written index and does not know the chromosome at all
                     if rc != 0 and "without index files" in rname and "pyfaidx" in log and re.search(r"KeyError: '\S+ not in \S+'", log): key = KEY_REFIDX
+                    # any other crash INSIDE pyfaidx / its BGZF reader in this round is the same window (a half-written .fai / .gzi is parsed):
+                    # the traceback must end in the library's own frames, an IsoQuant-level error is never matched
+                    if rc != 0 and "without index files" in rname and key is None:
+                        frames = re.findall(r'File "([^"]+)", line \d+', log)
+                        if frames and re.search(r"(pyfaidx|bgzf|Bio/)", frames[-1]) and "JSONDecodeError" not in log: key = KEY_REFIDX
                     ctx.violation(key, "a run started together with %d others under one HOME %s" % (len(anns) - 1, "failed (exit code %d)" % rc if rc != 0 else "produced other results than alone"),
                                   {"round": rname, "run": i, "annotation": anns[i], "exit_code": rc, "differing_files": diff, "log_tail": log[-1200:]})
+            if "without index files" in rname:
+                # concurrent pyfaidx writers may leave a permanently corrupt .fai / .gzi behind (same recorded window): the following
+                # rounds are about the JSON caches, so they start from a cleanly rebuilt index
+                for ext in (".fai", ".gzi"):
+                    if os.path.exists(data["fasta"] + ext): os.remove(data["fasta"] + ext)
+                P.ensure_reference_index(data["fasta"])
             cfg = os.path.join(home, ".config", "IsoQuant", "db_config.json")
             try: json.load(open(cfg))
             except Exception as e:
